@@ -22,6 +22,12 @@ theories/Model/ValueSummary.vos theories/Model/ValueSummary.vok theories/Model/V
 theories/Proofs/BVLemmas.vo theories/Proofs/BVLemmas.glob theories/Proofs/BVLemmas.v.beautified theories/Proofs/BVLemmas.required_vo: theories/Proofs/BVLemmas.v theories/Spec/BV.vo
 theories/Proofs/BVLemmas.vio: theories/Proofs/BVLemmas.v theories/Spec/BV.vio
 theories/Proofs/BVLemmas.vos theories/Proofs/BVLemmas.vok theories/Proofs/BVLemmas.required_vos: theories/Proofs/BVLemmas.v theories/Spec/BV.vos
+theories/Proofs/BddProofs.vo theories/Proofs/BddProofs.glob theories/Proofs/BddProofs.v.beautified theories/Proofs/BddProofs.required_vo: theories/Proofs/BddProofs.v theories/Spec/GuardSem.vo
+theories/Proofs/BddProofs.vio: theories/Proofs/BddProofs.v theories/Spec/GuardSem.vio
+theories/Proofs/BddProofs.vos theories/Proofs/BddProofs.vok theories/Proofs/BddProofs.required_vos: theories/Proofs/BddProofs.v theories/Spec/GuardSem.vos
+theories/Proofs/CoalesceProofs.vo theories/Proofs/CoalesceProofs.glob theories/Proofs/CoalesceProofs.v.beautified theories/Proofs/CoalesceProofs.required_vo: theories/Proofs/CoalesceProofs.v theories/Spec/GuardSem.vo theories/Proofs/BddProofs.vo theories/Proofs/GuardProofs.vo theories/Proofs/SummaryProofs.vo
+theories/Proofs/CoalesceProofs.vio: theories/Proofs/CoalesceProofs.v theories/Spec/GuardSem.vio theories/Proofs/BddProofs.vio theories/Proofs/GuardProofs.vio theories/Proofs/SummaryProofs.vio
+theories/Proofs/CoalesceProofs.vos theories/Proofs/CoalesceProofs.vok theories/Proofs/CoalesceProofs.required_vos: theories/Proofs/CoalesceProofs.v theories/Spec/GuardSem.vos theories/Proofs/BddProofs.vos theories/Proofs/GuardProofs.vos theories/Proofs/SummaryProofs.vos
 theories/Proofs/EvalImplProofs.vo theories/Proofs/EvalImplProofs.glob theories/Proofs/EvalImplProofs.v.beautified theories/Proofs/EvalImplProofs.required_vo: theories/Proofs/EvalImplProofs.v theories/Model/EvalImpl.vo theories/Proofs/ExprLemmas.vo
 theories/Proofs/EvalImplProofs.vio: theories/Proofs/EvalImplProofs.v theories/Model/EvalImpl.vio theories/Proofs/ExprLemmas.vio
 theories/Proofs/EvalImplProofs.vos theories/Proofs/EvalImplProofs.vok theories/Proofs/EvalImplProofs.required_vos: theories/Proofs/EvalImplProofs.v theories/Model/EvalImpl.vos theories/Proofs/ExprLemmas.vos
@@ -31,6 +37,21 @@ theories/Proofs/EvalProofs.vos theories/Proofs/EvalProofs.vok theories/Proofs/Ev
 theories/Proofs/ExprLemmas.vo theories/Proofs/ExprLemmas.glob theories/Proofs/ExprLemmas.v.beautified theories/Proofs/ExprLemmas.required_vo: theories/Proofs/ExprLemmas.v theories/Model/Expr.vo
 theories/Proofs/ExprLemmas.vio: theories/Proofs/ExprLemmas.v theories/Model/Expr.vio
 theories/Proofs/ExprLemmas.vos theories/Proofs/ExprLemmas.vok theories/Proofs/ExprLemmas.required_vos: theories/Proofs/ExprLemmas.v theories/Model/Expr.vos
+theories/Proofs/GuardProofs.vo theories/Proofs/GuardProofs.glob theories/Proofs/GuardProofs.v.beautified theories/Proofs/GuardProofs.required_vo: theories/Proofs/GuardProofs.v theories/Spec/GuardSem.vo theories/Proofs/BddProofs.vo theories/Proofs/BVLemmas.vo theories/Proofs/ExprLemmas.vo theories/Proofs/EvalProofs.vo
+theories/Proofs/GuardProofs.vio: theories/Proofs/GuardProofs.v theories/Spec/GuardSem.vio theories/Proofs/BddProofs.vio theories/Proofs/BVLemmas.vio theories/Proofs/ExprLemmas.vio theories/Proofs/EvalProofs.vio
+theories/Proofs/GuardProofs.vos theories/Proofs/GuardProofs.vok theories/Proofs/GuardProofs.required_vos: theories/Proofs/GuardProofs.v theories/Spec/GuardSem.vos theories/Proofs/BddProofs.vos theories/Proofs/BVLemmas.vos theories/Proofs/ExprLemmas.vos theories/Proofs/EvalProofs.vos
+theories/Proofs/HistoryProofs.vo theories/Proofs/HistoryProofs.glob theories/Proofs/HistoryProofs.v.beautified theories/Proofs/HistoryProofs.required_vo: theories/Proofs/HistoryProofs.v theories/Spec/GuardSem.vo theories/Proofs/BddProofs.vo theories/Proofs/GuardProofs.vo theories/Proofs/SummaryProofs.vo theories/Proofs/CoalesceProofs.vo theories/Proofs/IteImportProofs.vo
+theories/Proofs/HistoryProofs.vio: theories/Proofs/HistoryProofs.v theories/Spec/GuardSem.vio theories/Proofs/BddProofs.vio theories/Proofs/GuardProofs.vio theories/Proofs/SummaryProofs.vio theories/Proofs/CoalesceProofs.vio theories/Proofs/IteImportProofs.vio
+theories/Proofs/HistoryProofs.vos theories/Proofs/HistoryProofs.vok theories/Proofs/HistoryProofs.required_vos: theories/Proofs/HistoryProofs.v theories/Spec/GuardSem.vos theories/Proofs/BddProofs.vos theories/Proofs/GuardProofs.vos theories/Proofs/SummaryProofs.vos theories/Proofs/CoalesceProofs.vos theories/Proofs/IteImportProofs.vos
+theories/Proofs/IteImportProofs.vo theories/Proofs/IteImportProofs.glob theories/Proofs/IteImportProofs.v.beautified theories/Proofs/IteImportProofs.required_vo: theories/Proofs/IteImportProofs.v theories/Spec/GuardSem.vo theories/Proofs/BddProofs.vo theories/Proofs/GuardProofs.vo theories/Proofs/SummaryProofs.vo
+theories/Proofs/IteImportProofs.vio: theories/Proofs/IteImportProofs.v theories/Spec/GuardSem.vio theories/Proofs/BddProofs.vio theories/Proofs/GuardProofs.vio theories/Proofs/SummaryProofs.vio
+theories/Proofs/IteImportProofs.vos theories/Proofs/IteImportProofs.vok theories/Proofs/IteImportProofs.required_vos: theories/Proofs/IteImportProofs.v theories/Spec/GuardSem.vos theories/Proofs/BddProofs.vos theories/Proofs/GuardProofs.vos theories/Proofs/SummaryProofs.vos
+theories/Proofs/SummaryProofs.vo theories/Proofs/SummaryProofs.glob theories/Proofs/SummaryProofs.v.beautified theories/Proofs/SummaryProofs.required_vo: theories/Proofs/SummaryProofs.v theories/Spec/GuardSem.vo theories/Proofs/BddProofs.vo theories/Proofs/GuardProofs.vo
+theories/Proofs/SummaryProofs.vio: theories/Proofs/SummaryProofs.v theories/Spec/GuardSem.vio theories/Proofs/BddProofs.vio theories/Proofs/GuardProofs.vio
+theories/Proofs/SummaryProofs.vos theories/Proofs/SummaryProofs.vok theories/Proofs/SummaryProofs.required_vos: theories/Proofs/SummaryProofs.v theories/Spec/GuardSem.vos theories/Proofs/BddProofs.vos theories/Proofs/GuardProofs.vos
 theories/Props/C06.vo theories/Props/C06.glob theories/Props/C06.v.beautified theories/Props/C06.required_vo: theories/Props/C06.v theories/Model/EvalImpl.vo theories/Proofs/EvalProofs.vo theories/Proofs/EvalImplProofs.vo
 theories/Props/C06.vio: theories/Props/C06.v theories/Model/EvalImpl.vio theories/Proofs/EvalProofs.vio theories/Proofs/EvalImplProofs.vio
 theories/Props/C06.vos theories/Props/C06.vok theories/Props/C06.required_vos: theories/Props/C06.v theories/Model/EvalImpl.vos theories/Proofs/EvalProofs.vos theories/Proofs/EvalImplProofs.vos
+theories/Props/C20.vo theories/Props/C20.glob theories/Props/C20.v.beautified theories/Props/C20.required_vo: theories/Props/C20.v theories/Spec/GuardSem.vo theories/Proofs/BddProofs.vo theories/Proofs/GuardProofs.vo theories/Proofs/SummaryProofs.vo theories/Proofs/CoalesceProofs.vo theories/Proofs/IteImportProofs.vo theories/Proofs/HistoryProofs.vo
+theories/Props/C20.vio: theories/Props/C20.v theories/Spec/GuardSem.vio theories/Proofs/BddProofs.vio theories/Proofs/GuardProofs.vio theories/Proofs/SummaryProofs.vio theories/Proofs/CoalesceProofs.vio theories/Proofs/IteImportProofs.vio theories/Proofs/HistoryProofs.vio
+theories/Props/C20.vos theories/Props/C20.vok theories/Props/C20.required_vos: theories/Props/C20.v theories/Spec/GuardSem.vos theories/Proofs/BddProofs.vos theories/Proofs/GuardProofs.vos theories/Proofs/SummaryProofs.vos theories/Proofs/CoalesceProofs.vos theories/Proofs/IteImportProofs.vos theories/Proofs/HistoryProofs.vos
